@@ -39,6 +39,7 @@ func runC05(p *eng.Prog, r *eng.Report, tier string) {
 	attrGetNotUsed(c, "C05.16")
 	depthCountersDoNotWrap(c, "C05.18")
 	c05SendHandsReaderOn(c, "C05.19")
+	c05ReplyFlushedAfterHandler(c, "C05.20")
 	c05ContentNamespaceFromRole(c, "C05.17")
 	nEnum := enumExhaustive(c, "C05.13", []string{"stanza"})
 	c.r.Floor("C05.13", "enumeration methods in package stanza", nEnum, 2)
@@ -1030,4 +1031,38 @@ func c05SendHandsReaderOn(c *cx, id string) {
 		}
 	}
 	c.r.Floor(id, "calls of send in Send / SendElement", n, 2)
+}
+
+// c05ReplyFlushedAfterHandler (C05.20): what a handler wrote is on the wire
+// when its call is over, not when the peer has finished sending the element
+// it replies to: every non-error path of handleInputStream from the handler
+// call to the discard of the rest of the element passes an explicit Flush of
+// the handler's writer (the deferred Close flushes only at the very end, and
+// keeps the output lock until then).
+func c05ReplyFlushedAfterHandler(c *cx, id string) {
+	f := c.fn(id, "", "handleInputStream")
+	if f == nil {
+		return
+	}
+	g := f.Graph()
+	hcs := f.Calls("xmpp.Handler.HandleXMPP")
+	hc, ok := one(c, id, f, "handler call", hcs)
+	if !ok {
+		return
+	}
+	hp, _ := g.Where(hc)
+	isFlush := func(q eng.Point, nd ast.Node) bool { return f.ContainsCall(nd, "xmpp.deferWriter.Flush") != nil }
+	n := 0
+	for _, cl := range f.Calls("mellium.im/xmlstream.Copy") {
+		cp, _ := g.Where(cl)
+		if len(cl.Args) != 2 || f.Norm(cl.Args[0], &cp) != "mellium.im/xmlstream.Discard()" {
+			continue
+		}
+		if !g.Reachable(g.After(hp), cp, nil, nil) {
+			continue
+		}
+		n++
+		c.r.Check(id, f, "handler's output flushed before the rest of the element is discarded", "O: every path from the handler call to the discard of the remaining input passes deferWriter.Flush", cl.Pos(), g.MustPassBefore(g.After(hp), cp, isFlush, nil), "the reply stays in the buffer (and the output lock stays taken) until the peer has sent the rest of its element")
+	}
+	c.r.Floor(id, "discards of the rest of the element after the handler", n, 1)
 }
